@@ -38,3 +38,14 @@ for l in P.fns.values():
             closures.add("%s|%s" % (par.pq, holder))
 json.dump({"functions": names, "closures": sorted(closures)}, open(KNOWN, "w"), indent=0)
 print("wrote %s: %d function names, %d named closures" % (KNOWN, len(names), len(closures)))
+
+# the names of all folded integral constants on the reference tree: a named constant that is not in this list is NEW and is rendered by
+# its value in canonical texts (analysis/program.py, Fn.text), so that `x & ~kMask` reads like the `x & ~4095` it replaced
+consts = set()
+for f in P.fns.values():
+    for n in f.nodes:
+        if n.get("k") == "ref" and "cval" in n:
+            consts.add(n.get("qname") or ("%s|%s" % (f.pq, n["name"])) if n.get("dk") != "local" else "%s|%s" % (f.pq, n["name"]))
+KC = os.path.join(os.path.dirname(KNOWN), "known_constants.json")
+json.dump(sorted(consts), open(KC, "w"), indent=0)
+print("wrote %s: %d named constants" % (KC, len(consts)))
